@@ -413,11 +413,34 @@ class SpecDB:
                     if loop is None: raise SpecError('invariant outside loop')
                     loop.invariants.append(Clause('invariant', self.expand(parse_expr(rest)), rest, engines, label, ln))
                 elif head == 'call':
-                    m2 = re.match(r'^(\w+)\s*=\s*(\S+?)\((.*)\)\s*$', rest)
+                    # call r = KEY(args) [with g1 = e1, g2 = e2 ; g1 = e3, g2 = e4 ...]  (ghost instances, separated by ';')
+                    withx = None; alsox = []
+                    # ... also VIEW with g = e, ... ; ...   (further views of the same function, same call)
+                    while ' also ' in rest:
+                        rest, _, atxt = rest.rpartition(' also ')
+                        vname, _, awith = atxt.partition(' with ')
+                        sets_ = []
+                        for grp in (awith.split(';') if awith.strip() else []):
+                            d_ = {}
+                            for asg in grp.split(','):
+                                gn_, _, gx_ = asg.partition('=')
+                                d_[gn_.strip()] = self.expand(parse_expr(gx_.strip()))
+                            sets_.append(d_)
+                        alsox.insert(0, (vname.strip(), sets_))
+                    if ' with ' in rest:
+                        rest, _, wtxt = rest.partition(' with ')
+                        withx = []
+                        for grp in wtxt.split(';'):
+                            d_ = {}
+                            for asg in grp.split(','):
+                                gn_, _, gx_ = asg.partition('=')
+                                d_[gn_.strip()] = self.expand(parse_expr(gx_.strip()))
+                            withx.append(d_)
+                    m2 = re.match(r'^(\w+)\s*=\s*(\S+?)\((.*)\)\s*$', rest.strip())
                     if not m2 or not isinstance(ctx, Lemma): raise SpecError('call: expected `call r = KEY(args)` inside a lemma')
                     if not hasattr(ctx, 'calls'): ctx.calls = []
                     call_ex = self.expand(parse_expr('__args(' + m2.group(3) + ')'))
-                    ctx.calls.append((m2.group(1), m2.group(2), list(call_ex.args)))
+                    ctx.calls.append((m2.group(1), m2.group(2), list(call_ex.args), withx, alsox))
                 elif head == 'capture':
                     # capture TYPE NAME : a variable captured by the lambda whose operator() this block describes
                     t, n = rest.split()
